@@ -77,6 +77,7 @@ func (g *genState) sweepCase(e *entry, m sweepMode, emit bool) {
 			g.sweepHit(e, via, b, "panic:reencode-accepted:"+e.name, desc+": "+pan+errs)
 			return
 		}
+		g.hashOracle(e, o.obj, read, re, via)
 		if !bytes.Equal(re, read) {
 			cl := classify(e, read, re)
 			what := "noncanonical-accept:" + cl
